@@ -35,8 +35,9 @@ def strip_wrappers(e):
     return e
 
 
-def inline_condvars(fn):
-    """Copy of fn in which uses of `if (T v{init})` condition variables are replaced by `init` inside that if."""
+def inline_condvars(fn, inits=False):
+    """Copy of fn in which uses of `if (T v{init})` condition variables are replaced by `init` inside that if.
+    With inits=True the same is done for `if (T v{init}; cond)` init-statements."""
     d = copy.deepcopy(fn.d)
     f2 = Function(d, fn.unit)
     f2.simp()
@@ -46,6 +47,11 @@ def inline_condvars(fn):
             return
         if s.get("k") == "if" and isinstance(s.get("var"), dict) and s["var"].get("n") and is_expr(s["var"].get("i")):
             n, init = s["var"]["n"], strip_wrappers(s["var"]["i"])
+            for k in ("c", "t", "e"):
+                if s.get(k) is not None:
+                    s[k] = _subst_local(s[k], n, init)
+        if inits and s.get("k") == "if" and isinstance(s.get("init"), dict) and s["init"].get("k") == "decl" and s["init"].get("n") and is_expr(s["init"].get("i")):
+            n, init = s["init"]["n"], strip_wrappers(s["init"]["i"])
             for k in ("c", "t", "e"):
                 if s.get(k) is not None:
                     s[k] = _subst_local(s[k], n, init)
